@@ -1694,6 +1694,17 @@ static void historyCase(Ctx& c, bool bulkHeavy)
             if(l.kind != 1 && l.cls != "valid" && l.cls != "true" && l.cls != "false") haveSpecial = true;
             ls.push_back(l);
          }
+         // a special (non-valid) line is the only line of the file that names its parameter: violations are then attributed unambiguously
+         for(size_t a = 0; a < ls.size(); a++)
+         {
+            const Line& sl = ls[a];
+            if(sl.kind != 0 || sl.cls == "valid" || sl.cls == "true" || sl.cls == "false") continue;
+            std::string nm = sl.pname;
+            std::vector<Line> keep;
+            for(size_t b = 0; b < ls.size(); b++) if(b == a || ls[b].kind != 0 || ls[b].pname != nm) keep.push_back(ls[b]);
+            ls.swap(keep);
+            break;
+         }
          c.loadFile(ls, g.chance(0.8), false);
       }
       else if(r < 73) c.saveReload(g.chance(0.5));
